@@ -662,6 +662,33 @@ def parse_merchants(content: str, match_mode: str = 'first_match') -> MerchantEn
 # CSV Conversion (Backwards Compatibility)
 # =============================================================================
 
+def _regex_literal(pattern: str) -> str:
+    """Quote a CSV regex pattern for use inside a match expression.
+
+    Plain patterns are written as "PATTERN". A pattern containing a backslash or a
+    double quote is written as a raw string so that \\b, \\1, \\\\ ... reach the regex
+    engine unchanged (in a normal string \\b is a backspace and \\1 is chr(1)).
+    """
+    if '\\' not in pattern and '"' not in pattern:
+        return f'"{pattern}"'
+    if '"' not in pattern:
+        return f'r"{pattern}"'
+    if "'" not in pattern:
+        return f"r'{pattern}'"
+    # Both kinds of quotes: write every bare " as \" (a literal quote for the regex
+    # engine), leaving existing escape sequences alone
+    out = []
+    i = 0
+    while i < len(pattern):
+        if pattern[i] == '\\' and i + 1 < len(pattern):
+            out.append(pattern[i:i + 2])
+            i += 2
+            continue
+        out.append('\\"' if pattern[i] == '"' else pattern[i])
+        i += 1
+    return 'r"' + ''.join(out) + '"'
+
+
 def _modifier_to_expr(parsed_pattern) -> str:
     """Convert parsed CSV modifiers to expression string."""
     conditions = []
@@ -678,7 +705,8 @@ def _modifier_to_expr(parsed_pattern) -> str:
             # Range
             conditions.append(f"amount >= {cond.min_value} and amount <= {cond.max_value}")
         elif cond.operator == '=':
-            conditions.append(f"amount == {cond.value}")
+            # CSV [amount=N] matches within one cent (see evaluate_amount_condition)
+            conditions.append(f"abs(amount - {cond.value}) < 0.01")
         else:
             conditions.append(f"amount {cond.operator} {cond.value}")
 
@@ -730,7 +758,7 @@ def csv_rule_to_merchant_rule(
     if pattern:
         # Escape any special characters in the pattern for the match expression
         # We use regex() function for the pattern
-        parts.append(f'regex("{pattern}")')
+        parts.append(f'regex({_regex_literal(pattern)})')
 
     # Add modifier conditions
     modifier_expr = _modifier_to_expr(parsed_pattern)
@@ -833,7 +861,7 @@ def csv_to_merchants_content(csv_rules: List[Tuple]) -> str:
         parts = []
         if pattern:
             # Pattern is already properly escaped for regex use, write as-is
-            parts.append(f'regex("{pattern}")')
+            parts.append(f'regex({_regex_literal(pattern)})')
 
         modifier_expr = _modifier_to_expr(parsed) if parsed else ""
         if modifier_expr and not modifier_expr.startswith("#"):
